@@ -68,6 +68,47 @@ def agree(a, b, scale, dtname, numel):
     return d <= tol, d, tol
 
 
+def min_relgap(ref, N, M, R):
+    """Smallest gap sigma_r - sigma_{r+1} over the bonds at which a TT with ranks R truncates the
+    tensor `ref` (dense, layout N1..Nd, or M1..Md,N1..Nd for operators); inf when no bond truncates.  A truncated SVD is
+    only determined up to roundoff / gap, so two correct backends may differ by that much."""
+    d = len(N)
+    T = ref.detach().resolve_conj()
+    T = T.to(torch.complex128 if T.is_complex() else torch.float64)
+    if M is not None:
+        T = T.reshape(list(M) + list(N)).permute([k // 2 + (d if k % 2 else 0) for k in range(2 * d)])
+        sizes = [int(m) * int(n) for m, n in zip(M, N)]
+    else:
+        sizes = [int(n) for n in N]
+    T = T.reshape(sizes)
+    g = float('inf')
+    for k in range(1, d):
+        rows = 1
+        for v in sizes[:k]:
+            rows *= v
+        sv = torch.linalg.svdvals(T.reshape(rows, -1))
+        r = int(R[k])
+        if 0 < r < sv.shape[0]:
+            g = min(g, float(sv[r - 1] - sv[r]))
+    return g
+
+
+def agree_conditioned(a, b, scale, dtname, ref, N, M, R, err0):
+    """agree(), made sound for truncations that are not well conditioned.  Two correct SVD backends produce truncated
+    factors that differ by roundoff * ||A|| / gap, where gap is the distance between the last kept and the first dropped
+    singular value; the unfoldings the algorithm sees differ from those of the reference by at most the truncation error
+    made so far (err0), so gap_eff = gap(reference) - 2*err0.  Returns (verdict, difference, tolerance) with verdict in
+    {'ok', 'differs', 'ill-conditioned'}; the last one means the comparison says nothing and is skipped (counted)."""
+    ok, d, tol = agree(a, b, scale, dtname, 1)
+    if ok:
+        return 'ok', d, tol
+    gap = min_relgap(ref, N, M, R) - 2.0 * err0
+    if not gap > 1e-3 * scale:
+        return 'ill-conditioned', d, tol
+    tol2 = tol * max(1.0, scale / gap)
+    return ('ok' if d <= tol2 else 'differs'), d, tol2
+
+
 def resolve_fractions(plan, count_call):
     """A plan may name its failing calls as fractions of the number of primary SVD calls the routine makes
     ({'frac': [0.0, 0.5, 0.97]}): that number is measured by a fault-free counting run (`count_call` must re-seed and
